@@ -334,6 +334,45 @@ def main():
         if kind == "repeat" or len(spec[1]) > 0:
             # (a 0-d batch: correspondence only — the torch proxy of the oracle has no batch dim to index)
             L.oracle_ext(run, kind, [spec], (args[0],) if kind == "repeat" else (args[0], args[1]))
+    # ---- 3b''. repeat_interleave with a TENSOR of counts (>= 2 elements or none; a single element is an int for the code), explicit dim,
+    # batch rank >= 1: model `riListNode` vs implementation (values, batch = sum of the counts, names, error class)
+    import torch as _tq
+    rl_cases, rl_lines = [], []
+    for i in range(200 if quick else 2500):
+        rank = rng.choice([1, 1, 2, 2, 3, 4])
+        bs = tuple(rng.choice(L.DIMS if rng.random() < 0.3 else (2, 3, 3)) for _ in range(rank))
+        spec = L.gen_tree(rng, bs, named=rng.random() < 0.45)
+        wild = rng.random() < 0.25
+        d = rng.randint(-rank - 2, rank + 1) if wild else rng.randrange(-rank, rank)
+        dd = d + rank if d < 0 else d
+        size = bs[dd] if 0 <= dd < rank else rng.choice([0, 2, 3])
+        k = size if not (wild and rng.random() < 0.5) else rng.choice([0, 2, 3, 4])
+        if k == 1:
+            continue
+        rs = [rng.choice([0, 1, 1, 2, 3]) for _ in range(k)]
+        rl_cases.append((spec, rs, d)); rl_lines.append(f"(c02.ril ({' '.join(map(str, rs))}) {d} {L.spec_sx(spec)})")
+    for (spec, rs, d), ans in zip(rl_cases, ask_chunked(drv, rl_lines)):
+        td = L.build(spec)
+        try:
+            with L.time_limit(30.0):
+                r = td.repeat_interleave(_tq.tensor(rs, dtype=_tq.int64), dim=d)
+            impl = ["ok", L.canon(r)]
+        except Exception as e:  # noqa: BLE001
+            L.slow_is_infra(e)
+            impl = ["err", L.err_class(e)]
+        run.case(("ril", str(rs), d, L.spec_sx(spec)))
+        run.count("ril.outcome", impl[0] if impl[0] == "ok" else "err:" + impl[1])
+        run.corr("td:repeat_interleave_tensor", {"kind": "repeat_interleave", "repeats": rs, "dim": d, "td": L.spec_sx(spec)}, impl, parse_sx(ans))
+    # the Lean rendering of torch's repeat_interleave(tensor, dim) vs torch
+    for shape in [(2,), (3,), (2, 3), (3, 1, 2), (2, 0, 2), (0, 2)]:
+        for dd_ in range(len(shape)):
+            for _ in range(3):
+                rs = [rng.choice([0, 1, 2, 3]) for _ in range(shape[dd_])]
+                t_ = _tq.arange(L.numel(shape), dtype=_tq.int64).reshape(shape)
+                want = t_.repeat_interleave(_tq.tensor(rs, dtype=_tq.int64), dim=dd_)
+                a_ = drv.ask(f"(c02.torch_ril ({' '.join(map(str, rs))}) {dd_} ({' '.join(map(str, shape))}))")
+                run.corr("spec:ril", {"shape": list(shape), "repeats": rs, "dim": dd_}, ["ok", L.canon(want)], parse_sx(a_))
+
     # torch spec of repeat / repeat_interleave on plain provenance tensors
     import torch
     sp_cases, sp_lines = [], []
